@@ -186,7 +186,7 @@ def check_ctrldep(ck: Checker, f: Func, m: Model, *, legacy: bool = False, rule:
             for sname in sorted(seen_sets & grown):
                 if k.startswith("in(") and k.endswith(f",{sname})") and tv in k:
                     ck.violation(rule, f, m.loop, f"{f.qualname}({mtxt}): every position of the tree is visited (no element is skipped because an equal / identically "
-                                 "named one was seen before)", construct=f"{f.qualname}({mtxt}): elements are skipped when {k[3:-1].split(',')[0]} is already in the local set "
+                                 "named one was seen before)", positive=True, construct=f"{f.qualname}({mtxt}): elements are skipped when {k[3:-1].split(',')[0]} is already in the local set "
                                  f"{sname} (a node object placed at two positions, or two nodes sharing an id, is traversed once only)")
                     return
         raise Unsupported(f"traversal loop body depends on {sorted(unknown)}", m.loop)
@@ -286,7 +286,7 @@ def check_gather(ck: Checker, f: Func, *, legacy: bool = False, rule: str = "R-G
         if others:
             # a positive pattern: the matches are streamed from the level-order traversal
             ck.violation(rule, f, others[0], "gather yields its matches in the pre-order of dfs()",
-                         construct=f"{f.qualname}: the matches are taken from self.bfs(...): they come in level order, not in pre-order")
+                         positive=True, construct=f"{f.qualname}: the matches are taken from self.bfs(...): they come in level order, not in pre-order")
             return
     if len(dcalls) != 1 or kw(dcalls[0], "filter") is None or not isinstance(kw(dcalls[0], "filter"), ast.Name):
         raise Unsupported("gather: not a single self.dfs(..., filter=<local function>) call", fn)
@@ -410,13 +410,13 @@ def r_traversals(ck: Checker) -> None:
         rec = recursion_on_depth(trav)
         what = f"{trav.qualname} is iterative: the depth of the tree is not bounded by the interpreter's recursion limit"
         if rec:
-            ck.violation("R-WORKLIST", trav, trav.node, what, construct=f"{trav.qualname}: {rec} (a deep tree raises RecursionError instead of being traversed)")
+            ck.violation("R-WORKLIST", trav, trav.node, what, positive=True, construct=f"{trav.qualname}: {rec} (a deep tree raises RecursionError instead of being traversed)")
             return
         ck.holds("R-WORKLIST", trav, trav.node, what)
         late = late_bound_deferred(trav)
         if late:
             ck.violation("R-WORKLIST", trav, trav.node, f"{trav.qualname}: no deferred group reads a loop variable after it is rebound",
-                         construct=f"{trav.qualname}: {late}")
+                         positive=True, construct=f"{trav.qualname}: {late}")
             return
     for mode, exp in (({"bottom_up": False}, "pre-order"), ({"bottom_up": True}, "post-order")):
         m = check_worklist(ck, dfs, mode, exp)
